@@ -25,7 +25,7 @@ func init() {
 				"(pricenil) CommissionData of every live type — evaluated by RunTx before the data is validated — returns only price-table fields and arithmetic over them, never a map element, nil or a value of unknown origin; " +
 				"(pricecoin) a commission vote is recorded only for the base coin or a coin that has a swap pool with the base coin: RunTx converts every fee through that pool without checking that it exists.",
 			Assumptions: append([]string{"a pre-check sibling rejects exactly the arguments on which its mutator panics (their arithmetic is not compared)"}, stdAssumptions...),
-			Rules:       []string{"C07.inventory", "C07.precheck", "C07.feeswap", "C07.nil", "C07.assert", "C07.pricenil", "C07.pricecoin"},
+			Rules:       []string{"C07.inventory", "C07.precheck", "C07.feeswap", "C07.nil", "C07.assert", "C07.pricenil", "C07.pricecoin", "C07.divzero"},
 		},
 		Run: runC07,
 	})
@@ -590,6 +590,7 @@ var partialExempt = map[string]string{
 // ---------------------------------------------------------------- driver
 
 func runC07(c *core.Ctx) {
+	defer checkDivZero(c, "C07.divzero")
 	reach := CrashReach(c, "C07.inventory")
 	var fns []*ssa.Function
 	for fn := range reach {
